@@ -33,7 +33,12 @@ type Reader struct {
 	objStmCache map[int]*core.ObjectStream // Cache for object streams
 	fileSize    int64
 	pageTree    *pages.PageTree // Cached page tree
+	loading     map[int]bool    // Objects whose load is in progress (guards against reference cycles)
 }
+
+// maxLoadDepth bounds how many object loads may be nested. Loading an object re-enters
+// GetObject only to resolve an indirect stream /Length, which is a plain integer object.
+const maxLoadDepth = 32
 
 // Ensure Reader implements pages.ObjectResolver
 var _ pages.ObjectResolver = (*Reader)(nil)
@@ -182,6 +187,21 @@ func (r *Reader) GetObject(objNum int) (core.Object, error) {
 	if !entry.InUse {
 		return nil, fmt.Errorf("object %d is not in use", objNum)
 	}
+
+	// Parsing the object can re-enter GetObject (a stream's /Length may be an indirect
+	// reference): refuse to load an object whose load is already in progress, so a file
+	// whose references form a cycle yields an error instead of unbounded recursion.
+	if r.loading[objNum] {
+		return nil, fmt.Errorf("circular reference while loading object %d", objNum)
+	}
+	if len(r.loading) >= maxLoadDepth {
+		return nil, fmt.Errorf("object %d: references nested more than %d levels deep", objNum, maxLoadDepth)
+	}
+	if r.loading == nil {
+		r.loading = make(map[int]bool)
+	}
+	r.loading[objNum] = true
+	defer delete(r.loading, objNum)
 
 	var obj core.Object
 	var err error
